@@ -77,7 +77,13 @@ fn process_value(ctx: &mut Ctx, v: &Value) -> Value {
             let mut out = vec![];
             for e in a {
                 if let Some(dg) = placeholder(e) {
-                    *ctx.seen.entry(dg.to_string()).or_insert(0) += 1;
+                    let n = ctx.seen.entry(dg.to_string()).or_insert(0);
+                    *n += 1;
+                    if *n > 1 {
+                        // already a MustReject (digest encountered twice); processing the same
+                        // disclosure again could blow up exponentially on self-similar structures
+                        continue;
+                    }
                     match ctx.by_digest.get(dg).cloned() {
                         None => {} // 3.4: element removed
                         Some(decoded) => match decoded.as_ref().and_then(Value::as_array) {
@@ -105,6 +111,11 @@ fn process_value(ctx: &mut Ctx, v: &Value) -> Value {
 
 fn process_object(ctx: &mut Ctx, o: &Map<String, Value>, top: bool) -> Map<String, Value> {
     let mut out = Map::new();
+    if !top && o.contains_key("_sd_alg") {
+        // the draft only speaks about the top-level _sd_alg; what happens to a member of that
+        // name further down is not asserted (MustReject conditions found elsewhere still are)
+        ctx.ambiguous.get_or_insert("_sd_alg below the top level".into());
+    }
     for (k, v) in o {
         if k == "_sd" || (top && k == "_sd_alg") {
             continue; // 3.5 / 3.6
@@ -116,7 +127,11 @@ fn process_object(ctx: &mut Ctx, o: &Map<String, Value>, top: bool) -> Map<Strin
         if is_array_of_strings(sd) {
             for d in sd.as_array().unwrap() {
                 let dg = d.as_str().unwrap();
-                *ctx.seen.entry(dg.to_string()).or_insert(0) += 1;
+                let n = ctx.seen.entry(dg.to_string()).or_insert(0);
+                *n += 1;
+                if *n > 1 {
+                    continue;
+                }
                 match ctx.by_digest.get(dg).cloned() {
                     None => {} // 3.3.1: ignored
                     Some(decoded) => match decoded.as_ref().and_then(Value::as_array) {
